@@ -76,6 +76,7 @@ class Tree(object):
     def __init__(self, ctx, r, nm, tbl):
         self.ctx, self.r, self.nm, self.tbl = ctx, r, nm, tbl
         self.write_caps = set()        # every write cap linked somewhere in the tree
+        self.lossy, self.keep = set(), []
         self.bare_secrets = set()      # write caps attached behind a repeated ro. mark: must never show up as a field or cap
         self.dirs = []                 # (node, kind, children spec)
         self.count = 0
@@ -94,6 +95,8 @@ class Tree(object):
                 self.ctx.count("multi-prefixed-attach:" + ("refused" if getattr(n, "error", None) is not None else "accepted"))
                 if getattr(n, "error", None) is None:
                     self.bare_secrets.add(secret)
+                    self.lossy.add(id(n))            # stored as ro.<write cap>: every reader rejects and drops this child
+                    self.keep.append(n)
             elif r.random() < 0.15:
                 # an attachment the writer's node maker must refuse: prefix ro./imm. in front of a write-capable cap
                 w, ro, label, secret = D.gen_contradictory_caps(r, self.tbl)
@@ -348,7 +351,7 @@ def path_model(ctx, i, r, t, root, root_ro, store, tbl, terms, info, case):
     by_ro = {dn.get_readonly_uri(): (dn, kind, final) for (dn, kind, final) in t.dirs}
     path, node, on_path = [], root, [root]
     while IDirectoryNode.providedBy(node) and node.get_readonly_uri() in by_ro and len(path) < 4:
-        final = by_ro[node.get_readonly_uri()][2]
+        final = {k: v for k, v in by_ro[node.get_readonly_uri()][2].items() if id(v[0]) not in t.lossy}
         if not final or (path and r.random() < 0.2):
             break
         name = r.choice(sorted(final))
